@@ -83,17 +83,38 @@ func (it *Interp) handler(id int, beh string) base.ExitHandler {
 
 // ---- recording slots -------------------------------------------------------------------------
 
+// slotErr is what a recording slot passes to ctx.SetError (no panic involved).
+type slotErr struct{ id int }
+
+func (e *slotErr) Error() string { return fmt.Sprintf("slot %d recorded an error", e.id) }
+
+type pairKeyT struct{}
+
+var pairKey = pairKeyT{}
+
+// note writes into the entry context what the slot's behaviour table says: "e" SetError, "k" SetPair, "ek" both.
+func note(ctx *base.EntryContext, id int, n string) {
+	if strings.Contains(n, "e") {
+		ctx.SetError(&slotErr{id})
+	}
+	if strings.Contains(n, "k") {
+		ctx.SetPair(pairKey, id)
+	}
+}
+
 type pSlot struct {
 	it    *Interp
 	id    int
 	order uint32
 	beh   string
 	hook  string
+	note  string
 }
 
 func (s *pSlot) Order() uint32 { return s.order }
 func (s *pSlot) Prepare(ctx *base.EntryContext) {
 	s.it.call(ctx, fmt.Sprintf("P%d", s.id))
+	note(ctx, s.id, s.note)
 	if s.hook != "" {
 		ctx.Entry().WhenExit(s.it.handler(s.id, s.hook))
 	}
@@ -111,9 +132,10 @@ type rSlot struct {
 	it    *Interp
 	id    int
 	order uint32
-	beh   string // pass nil wait wait0 panic bf bc bo
+	beh   string // pass pass1 nil wait wait0 wait1 panic | bf bc bo bn bt bb bm br bs
 	typ   base.BlockType
 	hook  string
+	note  string
 	rule  *rule
 	own   *base.TokenResult
 }
@@ -121,6 +143,7 @@ type rSlot struct {
 func (s *rSlot) Order() uint32 { return s.order }
 func (s *rSlot) Check(ctx *base.EntryContext) *base.TokenResult {
 	s.it.call(ctx, fmt.Sprintf("R%d", s.id))
+	note(ctx, s.id, s.note)
 	if s.hook != "" {
 		ctx.Entry().WhenExit(s.it.handler(s.id, s.hook))
 	}
@@ -129,6 +152,26 @@ func (s *rSlot) Check(ctx *base.EntryContext) *base.TokenResult {
 	switch s.beh {
 	case "pass":
 		return base.NewTokenResultPass()
+	case "pass1":
+		return base.NewTokenResult(base.ResultStatusPass)
+	case "wait1":
+		return base.NewTokenResult(base.ResultStatusShouldWait)
+	case "bn":
+		return base.NewTokenResult(base.ResultStatusBlocked) // no option at all: BlockTypeUnknown, no detail
+	case "bt":
+		return base.NewTokenResult(base.ResultStatusBlocked, base.WithBlockType(s.typ), base.WithRule(s.rule))
+	case "bb":
+		return base.NewTokenResultBlocked(s.typ)
+	case "bm":
+		return base.NewTokenResultBlockedWithMessage(s.typ, msg)
+	case "br":
+		ctx.RuleCheckResult.ResetToPass()
+		ctx.RuleCheckResult.ResetToBlocked(s.typ)
+		return ctx.RuleCheckResult
+	case "bs":
+		ctx.RuleCheckResult.ResetToPass()
+		ctx.RuleCheckResult.ResetToBlockedWithMessage(s.typ, msg)
+		return ctx.RuleCheckResult
 	case "nil":
 		return nil
 	case "wait":
@@ -154,26 +197,36 @@ type sSlot struct {
 	id    int
 	order uint32
 	beh   string // ok pp pb pc
+	note  string
 }
 
 func beFields(b *base.BlockError) [4]string {
 	if b == nil {
 		return [4]string{"nil", "", "", ""}
 	}
-	r := "norule"
-	if x, ok := b.TriggeredRule().(*rule); ok {
+	m := b.BlockMsg()
+	if m == "" {
+		m = "-"
+	}
+	r := "?"
+	if b.TriggeredRule() == nil {
+		r = "-"
+	} else if x, ok := b.TriggeredRule().(*rule); ok && x != nil {
 		r = strconv.Itoa(x.id)
 	}
-	sn := "nosnap"
-	if x, ok := b.TriggeredValue().(int); ok {
+	sn := "?"
+	if b.TriggeredValue() == nil {
+		sn = "-"
+	} else if x, ok := b.TriggeredValue().(int); ok {
 		sn = strconv.Itoa(x)
 	}
-	return [4]string{strconv.Itoa(int(b.BlockType())), b.BlockMsg(), r, sn}
+	return [4]string{strconv.Itoa(int(b.BlockType())), m, r, sn}
 }
 
 func (s *sSlot) Order() uint32 { return s.order }
 func (s *sSlot) OnEntryPassed(ctx *base.EntryContext) {
 	s.it.call(ctx, fmt.Sprintf("S%d+", s.id))
+	note(ctx, s.id, s.note)
 	if s.beh == "pp" {
 		panic("stat slot panic in OnEntryPassed")
 	}
@@ -185,6 +238,7 @@ func (s *sSlot) OnEntryBlocked(ctx *base.EntryContext, b *base.BlockError) {
 	} else {
 		s.it.call(ctx, fmt.Sprintf("S%d-%s", s.id, strings.Join(f[:], ".")))
 	}
+	note(ctx, s.id, s.note)
 	if s.beh == "pb" {
 		panic("stat slot panic in OnEntryBlocked")
 	}
@@ -215,18 +269,24 @@ func (it *Interp) addSlot(sc *base.SlotChain, tok string) bool {
 			return false
 		}
 	}
+	nt := ""
+	if bn := strings.Split(f[3], "+"); len(bn) == 2 && (bn[1] == "e" || bn[1] == "k" || bn[1] == "ek") {
+		f[3], nt = bn[0], bn[1]
+	} else if len(bn) != 1 {
+		return false
+	}
 	switch f[0] {
 	case "p":
 		if f[3] != "ok" && f[3] != "panic" {
 			return false
 		}
-		sc.AddStatPrepareSlot(&pSlot{it: it, id: id, order: uint32(ord), beh: f[3], hook: hook})
+		sc.AddStatPrepareSlot(&pSlot{it: it, id: id, order: uint32(ord), beh: f[3], hook: hook, note: nt})
 	case "r":
-		s := &rSlot{it: it, id: id, order: uint32(ord), beh: f[3], hook: hook, rule: &rule{id}}
+		s := &rSlot{it: it, id: id, order: uint32(ord), beh: f[3], hook: hook, note: nt, rule: &rule{id}}
 		switch f[3] {
-		case "pass", "nil", "wait", "wait0", "panic":
+		case "pass", "pass1", "nil", "wait", "wait0", "wait1", "panic":
 		default:
-			if len(f[3]) < 3 || (f[3][:2] != "bf" && f[3][:2] != "bc" && f[3][:2] != "bo") {
+			if len(f[3]) < 3 || !strings.Contains(" bf bc bo bn bt bb bm br bs ", " "+f[3][:2]+" ") {
 				return false
 			}
 			t, err := strconv.ParseUint(f[3][2:], 10, 8)
@@ -243,7 +303,7 @@ func (it *Interp) addSlot(sc *base.SlotChain, tok string) bool {
 		if hook != "" || (f[3] != "ok" && f[3] != "pp" && f[3] != "pb" && f[3] != "pc") {
 			return false
 		}
-		sc.AddStatSlot(&sSlot{it: it, id: id, order: uint32(ord), beh: f[3]})
+		sc.AddStatSlot(&sSlot{it: it, id: id, order: uint32(ord), beh: f[3], note: nt})
 	default:
 		return false
 	}
@@ -385,6 +445,28 @@ func (it *Interp) Step(t []string, op string) string {
 		return strings.Join(f[:], " ")
 	case t[0] == "globalorder" && len(t) == 1:
 		return globalOrder()
+	case t[0] == "ctx" && len(t) == 3 && (t[2] == "err" || t[2] == "pair"):
+		r, ok := it.entries[t[1]]
+		if !ok {
+			return "bad-op"
+		}
+		if r.ctx == nil {
+			return "no-context"
+		}
+		if t[2] == "pair" {
+			if v, ok := r.ctx.GetPair(pairKey).(int); ok {
+				return fmt.Sprintf("K%d", v)
+			}
+			return "-"
+		}
+		switch e := r.ctx.Err().(type) {
+		case nil:
+			return "-"
+		case *slotErr:
+			return fmt.Sprintf("E%d", e.id)
+		default:
+			return "panic" // the only other writer is the deferred recover of SlotChain.Entry
+		}
 	}
 	return "bad-op"
 }
